@@ -121,6 +121,34 @@ class Who:
         return set()
 
 
+def _skeleton_key(fn, key) -> bool:
+    """The key expression is a local that can only hold the name of a skeleton container (by what it is bound from, not by its spelling)."""
+    from ..roles import writer_roles
+
+    if not isinstance(key, ast.Name):
+        return False
+    role = writer_roles(fn.node).get(key.id, key.id)
+    if role in ("entity_type", "entity_type_str"):
+        return True
+    consts = lambda d: {v.value for v in d.values if isinstance(v, ast.Constant)}  # noqa: E731
+    dicts = {}
+    for a in ast.walk(fn.node):
+        if isinstance(a, ast.Assign) and isinstance(a.value, ast.Dict) and isinstance(a.targets[0], ast.Name):
+            dicts[a.targets[0].id] = a.value
+    for lp in ast.walk(fn.node):
+        if isinstance(lp, ast.For) and isinstance(lp.iter, ast.Call) and isinstance(lp.iter.func, ast.Attribute) and lp.iter.func.attr in ("items", "values") \
+                and isinstance(lp.iter.func.value, ast.Name) and lp.iter.func.value.id in dicts:
+            names = [t.id for t in ast.walk(lp.target) if isinstance(t, ast.Name)]
+            val_name = names[-1] if names else None
+            if val_name == key.id and consts(dicts[lp.iter.func.value.id]) <= SKELETON:
+                return True
+    # the dataset name of an attribute: bound from KEY_MAP
+    for a in ast.walk(fn.node):
+        if isinstance(a, ast.Assign) and isinstance(a.targets[0], ast.Name) and a.targets[0].id == key.id and "KEY_MAP" in unparse(a.value):
+            return True
+    return False
+
+
 def mutation_sites(fn):
     """(node, base handle expression, what, key expression|None)"""
     out = []
@@ -184,7 +212,7 @@ def rule_prov(ctx) -> RuleResult:
                 if x == PROJECT:
                     k = key.value if isinstance(key, ast.Constant) else None
                     keyname = unparse(key) if key is not None else ""
-                    if k in SKELETON or keyname in ("entity_type", "entity_type_str", "value", "workspace.name", "name_map"):
+                    if k in SKELETON or keyname == "workspace.name" or _skeleton_key(fn, key):
                         continue
                     # deleting / writing a flat-container entry keyed by the uid that was given
                     if key is not None and who.uid_expr(key) in allowed | {"param:uid"}:
@@ -355,13 +383,16 @@ def rule_handle(ctx) -> RuleResult:
     rets = [r for r in ast.walk(fh.node) if isinstance(r, ast.Return) and r.value is not None and unparse(r.value) != "None"]
     if len(rets) < 2:
         raise AnalysisError("H5Writer.fetch_handle: return statements not recognised")
+    from ..roles import canon, writer_roles
+    fr = writer_roles(fh.node)
+    unparse_r = lambda n: canon(n, fr)  # noqa: E731  (uid / base / base_handle by role)
     for r in rets:
-        v = unparse(r.value)
+        v = unparse_r(r.value)
         chain_ = [i for i in ast.walk(fh.node) if isinstance(i, ast.If) and any(x is r for s_ in i.body for x in ast.walk(s_))]
         guard = chain_[-1] if chain_ else None
-        gtxt = " and ".join(unparse(i.test) for i in chain_)
+        gtxt = " and ".join(unparse_r(i.test) for i in chain_)
         if "as_str_if_uuid(uid)" in v or "as_str_if_uuid(uid) in" in gtxt:
-            ok = any(isinstance(a, ast.Assign) and unparse(a.targets[0]) == "uid" and unparse(a.value) == f"{ent}.uid" for a in ast.walk(fh.node))
+            ok = any(isinstance(a, ast.Assign) and unparse_r(a.targets[0]) == "uid" and unparse(a.value) == f"{ent}.uid" for a in ast.walk(fh.node))
             res.inst(f"fetch_handle:{r.lineno} returns {v[:40]} keyed by the entity's own uid", nontrivial=True, ok=ok)
             if not ok:
                 res.find("H5Writer", "fetch_handle", f"returns {v[:40]} keyed by something else than {ent}.uid", f"{fh.module.relpath}:{r.lineno}",
